@@ -1,5 +1,5 @@
 """evaluate a factory function and the closure it returns (noise factories)"""
-from ..core import Closure
+from ..core import Closure, PartialV
 from ..sym import Sym, run_function, T
 from ..loader import Inconclusive
 
@@ -7,12 +7,14 @@ from ..loader import Inconclusive
 def factory_closure(prog, qname, arg=("param", "n")):
     """-> (S, factory Func, closure value, result term of calling the closure with `arg`, facts of the closure body)"""
     f = prog.func(qname)
-    S = Sym(prog)
+    mod = qname.rsplit(".", 1)[0]
+    # private helpers of the factory's module are expanded, so that extracting one does not hide the draw
+    S = Sym(prog, inline=lambda g: g.module.name == mod and g.name.startswith("_") and not g.name.startswith("__"))
     summ, _ = run_function(S, f)
     clo = summ.ret
-    if not isinstance(clo, Closure):
+    if not isinstance(clo, (Closure, PartialV)):
         raise Inconclusive("%s does not return a closure" % qname, f.node)
     n0 = len(S.facts)
     ctx = S.module_ctx(f.module)
-    res = S.call_closure(clo, [arg], {}, clo.node, {}, ctx)
+    res = S.apply(clo, [arg], {}, clo.node, {}, ctx)
     return S, f, clo, T(res), S.facts[n0:]
